@@ -13,9 +13,11 @@ package snowflake_proxy
 
 import (
 	"fmt"
+	"os"
 	"sort"
 	"strings"
 	"sync"
+	"sync/atomic"
 	"testing"
 	"time"
 
@@ -38,16 +40,18 @@ type v16Step struct {
 }
 
 type v16Sess struct {
-	idx      int
-	kind     string
-	variant  string
-	step     *v16Step
-	peer     *vPeer
-	key      string
-	sid      string
-	relayURL string
-	closeAt  int
-	rc       *vRelayConn
+	idx       int
+	kind      string
+	variant   string
+	step      *v16Step
+	peer      *vPeer
+	key       string
+	sid       string
+	relayURL  string
+	closeAt   int
+	rc        *vRelayConn
+	defBefore int    // connections the default relay path had seen before this session
+	downAddr  string // relay-down: the refusing address handed out
 
 	mu        sync.Mutex
 	answer    string
@@ -139,6 +143,19 @@ func (h *v16) recentSig() string {
 	}
 	sort.Strings(ks)
 	return "after-" + strings.Join(ks, "+")
+}
+
+// lowSig names the observation "fewer slots in use than sessions in progress":
+// the steered window and a goroutine parked in tokens.ret are definite double
+// releases; otherwise only the deficit itself is known.
+func (h *v16) lowSig(parked bool) string {
+	h.mu.Lock()
+	steered := h.steeredWin
+	h.mu.Unlock()
+	if steered || parked {
+		return "c16:double-release:" + h.recentSig()
+	}
+	return "c16:slots-below-sessions:" + h.recentSig()
 }
 
 func (h *v16) clearRecent() {
@@ -277,8 +294,9 @@ func (h *v16) checkpoint(p *vPoll, where string) {
 	}
 
 	d := vAnalyze()
+	S2 := vSlots() // read after the dump: during a held poll handlers only go away, so S2-1 <= handlers unless a slot has no owner
 	h.logf("%s: poll #%d sid=%.6s Clients=%d | slots=%d counter=%d proven-in-progress=%d pending=%d handlers=%d parked-ret=%d main=%s", where, p.Seq, p.Sid, p.Clients, S, counter, k, h.pendingCount(), d.Handlers, d.ParkedRet, d.MainWhere)
-	extra := map[string]interface{}{"poll": p.Raw, "slots_in_use": S, "client_counter": counter, "sessions_proven_in_progress": k, "goroutines": d}
+	extra := map[string]interface{}{"poll": p.Raw, "slots_in_use": S, "slots_in_use_after_dump": S2, "client_counter": counter, "sessions_proven_in_progress": k, "goroutines": d}
 
 	// black box: a poll in flight while N sessions relay data
 	if k+1 > N {
@@ -292,8 +310,8 @@ func (h *v16) checkpoint(p *vPoll, where string) {
 		if missing < d.ParkedRet {
 			missing = d.ParkedRet
 		}
-		res.Violatef("c16:double-release:"+h.recentSig(), h.replay(h.caseID(), extra),
-			"capacity %d: at a held poll %d slots are in use but the poll itself plus %d sessions proven in progress need %d; goroutines parked in tokens.ret: %d — a slot was released more than once (%s)", N, S, k, 1+k, d.ParkedRet, h.recentSig())
+		res.Violatef(h.lowSig(d.ParkedRet > 0), h.replay(h.caseID(), extra),
+			"capacity %d: at a held poll %d slots are in use but the poll itself plus %d sessions proven in progress need %d; goroutines parked in tokens.ret: %d — a slot was released more than once, or is not held where it must be (%s)", N, S, k, 1+k, d.ParkedRet, h.recentSig())
 		if !h.noFix {
 			vCompensate(missing)
 			res.Obs("slot_state_repaired_after_violation", 1)
@@ -302,10 +320,10 @@ func (h *v16) checkpoint(p *vPoll, where string) {
 	case S > 1+k:
 		// surplus slots: owned by handlers still running (tear-down in
 		// progress) or by nobody (leak)
-		orphans := S - 1 - d.Handlers
-		if orphans > 0 {
+		orphans := S2 - 1 - d.Handlers
+		if orphans > 0 && d.MainWhere == "runSession" {
 			res.Violatef("c16:slot-leak:"+h.recentSig(), h.replay(h.caseID(), extra),
-				"capacity %d: at a held poll %d slots are in use; the poll holds 1 and only %d data channel handlers exist (%d proven in progress): %d slot(s) have no goroutine left that could release them (%s)", N, S, d.Handlers, k, orphans, h.recentSig())
+				"capacity %d: at a held poll %d slots are in use; the poll holds 1 and only %d data channel handlers exist (%d proven in progress): %d slot(s) have no goroutine left that could release them (%s)", N, S2, d.Handlers, k, orphans, h.recentSig())
 			if !h.noFix {
 				vCompensate(-orphans)
 				res.Obs("slot_state_repaired_after_violation", 1)
@@ -378,20 +396,24 @@ func (h *v16) echoAllCached(prev map[*v16Sess]bool) map[*v16Sess]bool {
 	return out
 }
 
-// awaitPoll waits for the next poll. A poll that never comes is judged from a
-// goroutine dump: main loop parked in tokens.ret = double release; parked in
-// tokens.get while fewer handlers exist than slots are taken = leaked slots.
+// awaitPoll waits for the next poll. A poll that does not come is judged from
+// goroutine dumps, not from the time waited: main loop parked in tokens.ret =
+// double release; main loop parked in tokens.get while fewer handlers exist
+// than slots are taken (in two dumps) = leaked slots. Anything else keeps
+// waiting and ends inconclusive.
 func (h *v16) awaitPoll(where string) *vPoll {
-	for attempt := 0; attempt < 3; attempt++ {
-		p := h.br.nextPoll(50 * time.Second)
+	repaired := 0
+	for slice := 0; slice < 7; slice++ {
+		p := h.br.nextPoll(10 * time.Second)
 		if p != nil {
 			return p
 		}
 		d := vAnalyze()
-		S := vSlots()
-		extra := map[string]interface{}{"slots_in_use": S, "client_counter": vClientCounter(), "goroutines": d, "sessions_believed_open": len(h.open)}
-		h.logf("%s: no poll for 50 s | slots=%d handlers=%d parked-ret=%d main=%s", where, S, d.Handlers, d.ParkedRet, d.MainWhere)
+		S := vSlots() // after the dump: handlers only go away while the main loop is parked
+		h.logf("%s: no poll for %d s | slots=%d handlers=%d parked-ret=%d main=%s", where, 10*(slice+1), S, d.Handlers, d.ParkedRet, d.MainWhere)
+		extra := map[string]interface{}{"slots_in_use": S, "client_counter": vClientCounter(), "goroutines": d, "sessions_believed_open": h.openCount()}
 		switch {
+		case repaired >= 3:
 		case d.MainInRet:
 			h.res.Violatef("c16:double-release:"+h.recentSig(), h.replay(h.caseID(), extra),
 				"capacity %d: the proxy stopped polling; its main loop is parked in tokens.ret (%d slots in use, nothing left to take out): a slot was released more than once (%s)", h.cap, S, h.recentSig())
@@ -400,21 +422,28 @@ func (h *v16) awaitPoll(where string) *vPoll {
 				return nil
 			}
 			vCompensate(1)
+			repaired++
 			h.res.Obs("slot_state_repaired_after_violation", 1)
 		case d.MainWhere == "get-blocked" && S-d.Handlers > 0:
+			time.Sleep(300 * time.Millisecond)
+			d2 := vAnalyze()
+			S2 := vSlots()
+			if !(d2.MainWhere == "get-blocked" && S2-d2.Handlers > 0) {
+				continue
+			}
 			h.res.Violatef("c16:slot-leak:"+h.recentSig(), h.replay(h.caseID(), extra),
-				"capacity %d: the proxy stopped polling; its main loop waits for a free slot, %d slots are taken but only %d data channel handlers exist (harness knows %d open sessions): %d slot(s) leaked (%s)", h.cap, S, d.Handlers, len(h.open), S-d.Handlers, h.recentSig())
+				"capacity %d: the proxy stopped polling; its main loop waits for a free slot, %d slots are taken but only %d data channel handlers exist (harness knows %d open sessions): %d slot(s) leaked (%s)", h.cap, S2, d2.Handlers, h.openCount(), S2-d2.Handlers, h.recentSig())
 			h.clearRecent()
 			if h.noFix {
 				return nil
 			}
-			vCompensate(-(S - d.Handlers))
+			vCompensate(-(S2 - d2.Handlers))
+			repaired++
 			h.res.Obs("slot_state_repaired_after_violation", 1)
-		default:
-			h.res.Inconcl(fmt.Sprintf("%s: no poll within 50 s (main loop %s, %d slots, %d handlers) — cannot be judged", where, d.MainWhere, S, d.Handlers))
-			return nil
 		}
 	}
+	d := vAnalyze()
+	h.res.Inconcl(fmt.Sprintf("%s: no poll within 70 s (main loop %s, %d slots, %d handlers) — cannot be judged", where, d.MainWhere, vSlots(), d.Handlers))
 	return nil
 }
 
@@ -668,7 +697,8 @@ func (h *v16) runStep(st *v16Step) {
 		}
 		switch {
 		case st.Kind == "relay-down":
-			s.relayURL = fmt.Sprintf("ws://127.0.0.1:%d/%s/echo", vClosedPort("127.0.0.1"), s.key)
+			s.downAddr = fmt.Sprintf("127.0.0.1:%d", vRefusingPort())
+			s.relayURL = fmt.Sprintf("ws://%s/%s/echo", s.downAddr, s.key)
 		case st.Kind == "relay-closes":
 			s.relayURL = h.relayURLFor(s, st.Variant)
 		case st.DefURL:
@@ -678,6 +708,7 @@ func (h *v16) runStep(st *v16Step) {
 			s.relayURL = h.relayURLFor(s, "echo")
 		}
 		h.register(s, p.Sid)
+		s.defBefore = len(h.relay.conns("default"))
 		p.reply(200, vMatchBody(s.peer.offer, s.relayURL))
 		if h.establish(s, st) {
 			h.stepDone(st, overlap)
@@ -706,49 +737,61 @@ func (h *v16) establish(s *v16Sess, st *v16Step) bool {
 	if err := s.peer.applyAnswer(ans); err != nil {
 		return fail("the proxy's answer was not accepted by the harness peer: " + err.Error())
 	}
-	if !s.peer.waitOpen(15 * time.Second) {
-		return fail("data channel did not open within 15 s")
-	}
+	// relay-down and relay-closes/close-now end the session from the proxy's
+	// side at once, possibly before the client has seen its channel open: they
+	// are witnessed at the proxy's side (its dial, the relay's accept)
 	switch st.Kind {
 	case "relay-down":
+		deadline := time.Now().Add(15 * time.Second)
+		for vDials.count(s.downAddr) == 0 && time.Now().Before(deadline) {
+			time.Sleep(10 * time.Millisecond)
+		}
+		if vDials.count(s.downAddr) == 0 {
+			return fail("the proxy did not dial the (refusing) relay address within 15 s")
+		}
+		h.res.Obs("relay_down_dials_observed", 1)
 		h.mu.Lock()
 		h.pending++
 		h.mu.Unlock()
 		h.addRecent("relay-down")
-		if !s.peer.waitClosed(20 * time.Second) {
+		if !s.peer.waitClosed(10 * time.Second) {
 			h.res.Obs("relay_down_client_not_told", 1)
 		}
 		s.peer.close("pc")
 		return true
 	case "relay-closes":
+		if st.Variant == "close-after-first" && !s.peer.waitOpen(15*time.Second) {
+			return fail("data channel did not open within 15 s")
+		}
+		rc := h.relay.waitConn(s.key, 15*time.Second)
+		if rc == nil {
+			return fail("no relay connection arrived within 15 s")
+		}
 		h.mu.Lock()
 		h.pending++
 		h.mu.Unlock()
 		h.addRecent("relay-closes")
-		rc := h.relay.waitConn(s.key, 10*time.Second)
-		if rc == nil {
-			h.res.Inconcl(fmt.Sprintf("step %d: no relay connection arrived within 10 s", st.Idx))
-			s.peer.close("pc")
-			return false
-		}
 		if st.Variant == "close-after-first" {
 			s.peer.send("first and last")
 		}
-		if !s.peer.waitClosed(20 * time.Second) {
+		if !s.peer.waitClosed(10 * time.Second) {
 			h.res.Obs("relay_closes_client_not_told", 1)
 		}
 		s.peer.close("pc")
 		return true
 	}
+	if !s.peer.waitOpen(15 * time.Second) {
+		return fail("data channel did not open within 15 s")
+	}
 	// normal / probe
 	var rc *vRelayConn
 	if s.key == "default" {
+		// sessions are negotiated one at a time: the next new connection on
+		// the default path is this session's
 		deadline := time.Now().Add(10 * time.Second)
 		for rc == nil && time.Now().Before(deadline) {
-			for _, c := range h.relay.conns("default") {
-				if !c.isGone() {
-					rc = c
-				}
+			if cs := h.relay.conns("default"); len(cs) > s.defBefore {
+				rc = cs[s.defBefore]
 			}
 			time.Sleep(10 * time.Millisecond)
 		}
@@ -770,7 +813,7 @@ func (h *v16) establish(s *v16Sess, st *v16Step) bool {
 	h.open = append(h.open, s)
 	n := len(h.open)
 	h.mu.Unlock()
-	h.res.ObsMax("max_sessions_open_at_once", int64(n))
+	h.res.ObsMax("max_sessions_open_at_once_summed_over_shards", int64(n))
 	h.res.Obs("sessions_established", 1)
 	h.logf("session %d established (%d open, capacity %d)", s.idx, n, h.cap)
 	return true
@@ -942,7 +985,7 @@ func (h *v16) finalProbe() {
 	}
 	if k == N && S < N {
 		d := vAnalyze()
-		res.Violatef("c16:double-release:"+h.recentSig(), h.replay(h.caseID(), map[string]interface{}{"slots_in_use": S, "goroutines": d}),
+		res.Violatef(h.lowSig(d.ParkedRet > 0), h.replay(h.caseID(), map[string]interface{}{"slots_in_use": S, "goroutines": d}),
 			"capacity %d: %d sessions answer an end-to-end echo but only %d slots are in use", N, k, S)
 	}
 	if k == N {
@@ -1018,12 +1061,16 @@ func v16Plan(shard, nshards int, r *vlib.Rand) (int, []*v16Step) {
 	if vlib.Thorough() {
 		caps = []int{1, 2, 3, 4, 2, 1, 4, 3, 9, 17, 3, 1, 2, 4, 1, 2}
 	} else {
-		caps = []int{1, 2, 3, 4, 2, 1, 4, 3, 9, 2, 3, 1}
+		caps = []int{1, 2, 3, 4, 2, 1, 4, 3, 9, 17, 3, 1}
 	}
 	capacity := caps[shard%len(caps)]
-	n := vlib.Scale(5, 30)
-	if capacity >= 9 && !vlib.Thorough() {
-		n = 3
+	n := vlib.Scale(6, 30)
+	if !vlib.Thorough() { // filling 9 / 17 slots costs 45 / 85 s: shorter scripts there
+		if capacity == 9 {
+			n = 3
+		} else if capacity == 17 {
+			n = 1
+		}
 	}
 	cheap := []string{"no-offer", "bad-offer", "bad-relay", "answer-refused", "relay-down", "relay-closes", "normal", "normal", "idle"}
 	var kinds []string
@@ -1072,6 +1119,33 @@ func v16Plan(shard, nshards int, r *vlib.Rand) (int, []*v16Step) {
 	return capacity, steps
 }
 
+func v16ParseScript(spec string, r *vlib.Rand) (int, []*v16Step) {
+	capacity := 1
+	if i := strings.Index(spec, ":"); i >= 0 {
+		fmt.Sscanf(spec[:i], "%d", &capacity)
+		spec = spec[i+1:]
+	}
+	if capacity < 1 {
+		capacity = 1
+	}
+	var steps []*v16Step
+	for i, item := range strings.Split(spec, ",") {
+		kv := strings.SplitN(strings.TrimSpace(item), "/", 2)
+		st := &v16Step{Idx: i, Kind: kv[0]}
+		if len(kv) == 2 {
+			st.Variant = kv[1]
+		} else if vs := v16Variants[st.Kind]; len(vs) > 0 {
+			st.Variant = r.PickString(vs)
+		}
+		if st.Kind == "normal" {
+			st.Hold = capacity // stays open until the slot is needed
+			st.Close = "client-pc"
+		}
+		steps = append(steps, st)
+	}
+	return capacity, steps
+}
+
 // ---- the test -------------------------------------------------------------------------------------
 
 func TestVerifC16(t *testing.T) {
@@ -1080,6 +1154,10 @@ func TestVerifC16(t *testing.T) {
 	shard, nshards := vlib.Shard()
 	root := vlib.NewRand(vlib.Seed()).Split("c16").SplitN("shard", shard)
 	capacity, steps := v16Plan(shard, nshards, root.Split("plan"))
+	// experiments / minimisation: VERIF_C16_SCRIPT="2:normal,late-open" (capacity:kind[/variant],...)
+	if spec := os.Getenv("VERIF_C16_SCRIPT"); spec != "" {
+		capacity, steps = v16ParseScript(spec, root.Split("plan"))
+	}
 
 	st, err := vStartStun()
 	if err != nil {
@@ -1092,7 +1170,8 @@ func TestVerifC16(t *testing.T) {
 		return
 	}
 	br := vStartBroker()
-	h := &v16{res: res, cap: capacity, shard: shard, br: br, relay: relay, rng: root.Split("run"), t0: time.Now(), bySid: map[string]*v16Sess{}, script: steps}
+	vInstallDialLog()
+	h := &v16{noFix: os.Getenv("VERIF_C16_NOREPAIR") != "", res: res, cap: capacity, shard: shard, br: br, relay: relay, rng: root.Split("run"), t0: time.Now(), bySid: map[string]*v16Sess{}, script: steps}
 	br.mu.Lock()
 	br.onAnswer = h.onAnswer
 	br.mu.Unlock()
@@ -1119,14 +1198,14 @@ func TestVerifC16(t *testing.T) {
 	if h.dead {
 		res.Inconcl("the script could not be completed")
 	}
-	if n := br.expired; n > 0 {
+	if n := atomic.LoadInt64(&br.expired); n > 0 {
 		res.Inconcl(fmt.Sprintf("%d poll(s) were not answered by the driver in time", n))
 	}
 	res.Sample(1, map[string]interface{}{"case": fmt.Sprintf("shard%d/cap%d", shard, capacity), "capacity": capacity, "script": steps})
 	res.Note("hook_hits", verifhook.AllHits())
-	res.Obs("stun_requests_answered", st.reqs)
-	res.Obs("polls_seen", br.nPolls)
-	res.Obs("answers_seen", br.nAnswers)
+	res.Obs("stun_requests_answered", atomic.LoadInt64(&st.reqs))
+	res.Obs("polls_seen", atomic.LoadInt64(&br.nPolls))
+	res.Obs("answers_seen", atomic.LoadInt64(&br.nAnswers))
 
 	// coverage: what this shard's script contains must have been executed
 	for k, n := range planned {
